@@ -217,13 +217,21 @@ def report(v, bad, monfail, name, monitor=None):
         v.violation(f"{name}-monitor-{nm}.txt".replace(":", "_"),
                     f"# property {v.pid}: the implementation's own observations violate the property\n# {mm}\n"
                     f"# scenario {nm} (shrunk); replay: /verif/check {v.pid} --replay <this file>\n" + "".join(l + "\n" for l in small))
+    def cmp_obs(i, m):
+        # the same projection as the suites' own comparison: the model's reference lines (vres/V/R) and the collected
+        # states' C lines are not observations of the implementation run
+        a = [l for l in i.get("x", []) if not l.startswith("C ")]
+        b = [l for l in m.get("x", []) if not l.startswith(("vres=", "V ", "R ", "C "))]
+        if any("result=capped" in l for l in a):
+            return None
+        return compare(a, b)
     for nm, lines, d in bad[:3]:
         def fails(ls):
             i, m = run_pair("sim", [block("x", ls)], jobs=1)
-            return compare(i.get("x", []), m.get("x", [])) is not None
+            return cmp_obs(i, m) is not None
         small = shrink(lines, fails, keep=lambda l: l.startswith(("seed", "draws", "node")), budget=150)
         i, m = run_pair("sim", [block("x", small)], jobs=1)
-        dd = compare(i.get("x", []), m.get("x", [])) or d
+        dd = cmp_obs(i, m) or d
         concrete = monitor(small, i.get("x", [])) if monitor else None
         v.violation(f"{name}-{nm}.txt".replace(":", "_"),
                     f"# property {v.pid}: the real simulator deviates from the Lean model ({name})\n# correspondence broken: {dd}\n"
